@@ -243,6 +243,9 @@ fn history_chunk(cnfs: &[Vec<Clause>], order: &[usize], store: &str, cn: &mut Co
                 if rep.transitions % 2 == 1 {
                     let _ = guarded(|| (b.num_logically_redundant(), b.stats().num_nodes_alloc));
                 }
+                if rep.transitions % 3 == 2 {
+                    crate::props::bddutil::interloper(rep.transitions as usize / 3);
+                }
                 if let Some((key, what)) = check_with(&b, c, nv, cn) {
                     rep.violation(
                         format!("topdown:{}", key),
